@@ -133,7 +133,10 @@ var dateTimeParser = date.NewParser([]string{
 // day 		- the 12:00AM of today
 // week 	- the timestamp of Sunday 12:00AM for the current week
 func parseLqlDateTime(dt0 string) (time.Time, error) {
-	dt := strings.ToLower(strings.Trim(dt0, " "))
+	dts := strings.Trim(dt0, " ")
+	// the relative form and the constants are case-insensitive, the absolute formats are not (month and weekday
+	// names, 'T', 'Z', zone abbreviations, AM/PM): they see the literal as it was written
+	dt := strings.ToLower(dts)
 
 	tm, err := parseRalativeDateTime(dt)
 	if err == nil {
@@ -145,7 +148,7 @@ func parseLqlDateTime(dt0 string) (time.Time, error) {
 		return tm, nil
 	}
 
-	tm, fm := dateTimeParser.Parse(bytes.StringToByteArray(dt))
+	tm, fm := dateTimeParser.Parse(bytes.StringToByteArray(dts))
 	if fm != nil {
 		return tm, nil
 	}
